@@ -10,6 +10,9 @@ from histories import History
 ABC = ['a', 'b', 'c']
 
 
+WIDE_NAMES = [f'w{i:02d}' for i in range(12)]
+
+
 def orders_for(ctx, names, quick_n=1):
     perms = list(itertools.permutations(names))
     if ctx.tier == 'thorough':
@@ -292,7 +295,7 @@ def checked_subst_history(ctx, h, steps, kinds):
               for _ in range(2)]
     for _ in range(steps):
         names = h.names()
-        if not names or len(names) > 6 or set(names) != set(names0):
+        if not names or len(names) > 12 or set(names) != set(names0):
             h.step(dict(var=3, apply=5, hold=3, gc=1))
             continue
         sp = Space(names)
@@ -520,6 +523,44 @@ def check_C02(ctx):
             ctx.evaluations += 1
         ctx.case(('interleaving', k, len(h.s.lines)))
         h.finish(SECTIONS_L3, 'C02 interleaving')
+    # 3. removal of unused variables under nodes created bottom-up: the unique table is re-derived
+    #    while levels shift, so nodes with equal successors at neighbouring levels must stay apart
+    for k in range(40 if ctx.tier == 'quick' else 400):
+        if ctx.time_left() < 5:
+            break
+        nv = rng.randint(3, 7)
+        names = [chr(ord('a') + i) for i in range(nv)]
+        h = History(ctx, names)
+        used = sorted(rng.sample(names, rng.randint(2, nv - 1)))
+        creation = list(used)
+        mode = rng.randrange(3)
+        if mode == 0:
+            creation.reverse()          # deepest variable first
+        elif mode == 1:
+            rng.shuffle(creation)
+        for v in creation:
+            r = h.add(h.s.op(0, 'var', v))
+            if r is not None:
+                h.hold(r)
+        for _ in range(rng.randint(0, 6)):
+            h.step(dict(apply=4, ite=1, hold=3))
+        unused = [v for v in names if v not in used]
+        if rng.random() < 0.5:
+            h.s.op(0, 'undeclare')
+        else:
+            h.s.op(0, 'undeclare', ','.join(rng.sample(unused, rng.randint(1, len(unused)))))
+        bad = h.check(probe=True) or canon_problems(h.b, h.names())
+        for _ in range(rng.randint(0, 6)):
+            if bad:
+                break
+            h.step(dict(var=4, apply=4, hold=2))
+            bad = h.check(probe=True) or canon_problems(h.b, h.names())
+        ctx.evaluations += 1
+        if bad:
+            ctx.violation('manager not canonical after removing unused variables', dict(
+                problems=bad[:5], lines=list(h.s.lines), tags=dict(call='invariant-undeclare')))
+        ctx.case(('undeclare-template', k, mode))
+        h.finish(SECTIONS_L3, 'C02 undeclare template')
 
 
 # ---------------------------------------------------------------------------
@@ -578,12 +619,59 @@ def check_C03(ctx):
         if ctx.time_left() < 5:
             break
         names = [chr(ord('a') + i) for i in range(rng.randint(2, 5))]
+        if k % 4 == 3:
+            # wide manager: levels beyond 8 (iteration order of sets of levels matters there)
+            names = rng.sample(WIDE_NAMES, rng.randint(9, 11))
         h = History(ctx, names)
         checked_subst_history(ctx, h, rng.randint(20, 80), ['quantify'])
         ctx.case(('quantify-history', k, len(h.s.lines)))
         h.finish(SECTIONS_L3, 'C03 history')
+    _quantify_wide(ctx, 4 if ctx.tier == 'quick' else 40)
     if ctx.tier == 'thorough':
         _quantify_four(ctx)
+
+
+def _quantify_wide(ctx, n_mgr):
+    """Quantification on managers with 9-12 variables: small supports at arbitrary levels."""
+    rng = ctx.rng
+    for k in range(n_mgr):
+        if ctx.time_left() < 5:
+            break
+        s, order = wide_manager(ctx, 'C03')
+        b = s.mgr(0)
+        for _ in range(60):
+            sp, sub, t, r = wide_function(ctx, s, order)
+            tt = TT(b, sub)
+            # quantified variables: some of the support, possibly some outside it
+            q = [v for v in sub if rng.random() < 0.6]
+            extra = [v for v in rng.sample(order, 2) if v not in sub and rng.random() < 0.5]
+            fa = rng.randint(0, 1)
+            qq = q + extra
+            rng.shuffle(qq)
+            form = rng.randrange(3)
+            if form == 0 or not qq:
+                ans = s.op(0, 'quantify', r, ','.join('n:' + v for v in qq), fa)
+            elif form == 1:
+                ans = s.op(0, 'quantify', r, ','.join(f'l:{b.vars[v]}' for v in qq), fa)
+            else:
+                cube = s.val(s.op(0, 'cube', ','.join(f'{v}=1' for v in qq)))
+                al = rng.choice(FORALL_ALIASES if fa else EXISTS_ALIASES)
+                ans = s.op(0, 'apply', al, cube, r)
+            got = s.val(ans)
+            want = sp.forall(t, q) if fa else sp.exists(t, q)
+            ctx.evaluations += 1
+            if got is None:
+                ctx.violation('quantification failed (wide manager)', dict(
+                    order=order, sub=sub, tt=t, qvars=qq, forall=fa, got=ans, tags=dict(call='quantify')))
+                continue
+            supp = set(s.op(0, 'support', got)[3:].split(',')) - {''}
+            if not supp <= set(sub) - set(q) or tt.of(got) != want:
+                ctx.violation('quantification wrong (wide manager)', dict(
+                    order=order, sub=sub, tt=t, qvars=qq, forall=fa, form=form, got=ans,
+                    support=sorted(supp), expected_tt=want, tags=dict(call='quantify')))
+        ctx.case(('quantify-wide', tuple(order)))
+        ctx.add_session(s, SECTIONS_L2, f'C03 wide {len(order)}')
+        s.close()
 
 
 def _quantify_four(ctx):
@@ -690,6 +778,8 @@ def check_C04(ctx):
         if ctx.time_left() < 5:
             break
         names = [chr(ord('a') + i) for i in range(rng.randint(2, 5))]
+        if k % 4 == 3:
+            names = rng.sample(WIDE_NAMES, rng.randint(9, 10))
         h = History(ctx, names)
         checked_subst_history(ctx, h, rng.randint(20, 80), ['cofactor', 'rename', 'compose'])
         ctx.case(('let-history', k, len(h.s.lines)))
@@ -1141,6 +1231,55 @@ def check_C10(ctx):
     ctx.case(('gaps',))
     ctx.add_session(s, SECTIONS_L2, 'C10 gaps')
     s.close()
+    # managers with 9-12 variables: small supports at arbitrary levels (levels >= 8 included)
+    for k in range(4 if ctx.tier == 'quick' else 40):
+        if ctx.time_left() < 5:
+            break
+        s, order = wide_manager(ctx, 'C10')
+        for _ in range(80):
+            sp, sub, t, r = wide_function(ctx, s, order)
+            supp = sp.support(t)
+            kk = len(supp)
+            base = sp.count(t) >> (sp.n - kk)
+            ans = s.op(0, 'support', r)
+            if ans != 'ok ' + ','.join(sorted(supp)):
+                ctx.violation('support wrong (wide manager)', dict(order=order, sub=sub, tt=t, got=ans,
+                                                                   tags=dict(call='support')))
+            n = kk + rng.randint(0, 3)
+            ans = s.op(0, 'count', r, n)
+            ctx.evaluations += 1
+            if ans != f'ok {base << (n - kk)}':
+                ctx.violation('count wrong (wide manager)', dict(order=order, sub=sub, tt=t, n=n, got=ans,
+                                                                 expected=base << (n - kk), tags=dict(call='count')))
+            ans = s.op(0, 'count', r)
+            if ans != f'ok {base}':
+                ctx.violation('count(u) wrong (wide manager)', dict(order=order, sub=sub, tt=t, got=ans,
+                                                                    expected=base, tags=dict(call='count')))
+            ans = s.op(0, 'pick_iter', r)
+            prob = _pick_problems(sp, t, supp, sorted(supp), True, ans)
+            if prob:
+                ctx.violation('pick_iter wrong (wide manager): ' + prob, dict(
+                    order=order, sub=sub, tt=t, got=ans, tags=dict(call='pick_iter')))
+            care = sorted(set(sub) | set(rng.sample(order, 1)))
+            ans = s.op(0, 'pick_iter', r, ','.join(care))
+            full = Space(care)
+            prob = _pick_problems(full, _tt_from_models(full, care, sp, sub, t), supp, care, False, ans)
+            if prob:
+                ctx.violation('pick_iter with care set wrong (wide manager): ' + prob, dict(
+                    order=order, sub=sub, care=care, tt=t, got=ans, tags=dict(call='pick_iter')))
+        ctx.case(('wide', tuple(order)))
+        ctx.add_session(s, SECTIONS_L2, f'C10 wide {len(order)}')
+        s.close()
+
+
+def _tt_from_models(full, care, sp, sub, t):
+    """truth table over `care` (a superset of `sub`) of the function with table `t` over `sub`"""
+    def rec(tt, names):
+        if not names:
+            return full.full if tt else 0
+        v = names[0]
+        return full.ite(full.var(v), rec(sp.cof(tt, v, 1), names[1:]), rec(sp.cof(tt, v, 0), names[1:]))
+    return rec(t, list(sub))
 
 
 def _pick_problems(sp, t, supp, care, default, ans):
@@ -1191,9 +1330,36 @@ def _pick_problems(sp, t, supp, care, default, ans):
 # C14
 # ---------------------------------------------------------------------------
 
+def wide_manager(ctx, label):
+    """A session whose manager declares 9-12 variables in a random order, and a generator of
+    (Space over <= 4 of the names, truth table, reference): the functions' supports are small but
+    lie at arbitrary levels, including levels >= 8."""
+    rng = ctx.rng
+    order = rng.sample(WIDE_NAMES, rng.randint(9, 12))
+    s = fresh(ctx, order)
+    return s, order
+
+
+def wide_function(ctx, s, order):
+    rng = ctx.rng
+    k = rng.randint(1, 4)
+    sub = rng.sample(order, k)
+    if rng.random() < 0.7:
+        # make sure a variable at level >= 8 is involved
+        deep = order[8:]
+        if deep and not (set(sub) & set(deep)):
+            sub[0] = rng.choice(deep)
+    sub = sorted(set(sub))
+    sp = Space(sub)
+    t = rng.randrange(sp.full + 1)
+    r = Builder(s).build(sp, t)
+    return sp, sub, t, r
+
+
 def check_C14(ctx):
     rng = ctx.rng
-    pool_names = ['p', 'q', 'r', 's', 't', 'u']
+    SMALL_POOL = ['p', 'q', 'r', 's', 't', 'u']
+    pool_names = SMALL_POOL
     n_hist = 250 if ctx.tier == 'quick' else 3000
     for k in range(n_hist):
         if ctx.time_left() < 6:
@@ -1203,6 +1369,13 @@ def check_C14(ctx):
         h = History.__new__(History)
         h.ctx, h.rng, h.s, h.mid, h.pool, h.held, h.held_tt, h.dyn = ctx, rng, s, 0, [1, -1], [], {}, False
         b = s.mgr(0)
+        # one history in four works on a WIDE manager (9-12 variables: beyond the range in which
+        # CPython iterates a set of small integers in increasing order)
+        wide = (k % 4 == 3)
+        pool_names = WIDE_NAMES if wide else SMALL_POOL
+        if wide:
+            first = rng.sample(WIDE_NAMES, rng.randint(9, 12))
+            s.op(0, 'declare', ','.join(first))
         for _ in range(rng.randint(5, 40)):
             names = sorted(b.vars)
             before_order = dict(b.vars)
@@ -1243,7 +1416,7 @@ def check_C14(ctx):
                 if {k2: v for k2, v in b.vars.items() if k2 in before_order} != before_order:
                     ctx.violation('declaration moved existing variables', dict(
                         lines=list(s.lines), tags=dict(call='add_var-moves')))
-            elif r < 0.45 and names:
+            elif r < (0.6 if wide else 0.45) and names:
                 if rng.random() < 0.4:
                     s.op(0, 'gc')
                     h.prune()
@@ -1295,6 +1468,7 @@ def check_C14(ctx):
         s.close()
     # constructor / add_var with explicit levels given in any declaration order
     # (the constructor declares in dict order: transient gaps are normal there)
+    pool_names = SMALL_POOL
     for k in range(60 if ctx.tier == 'quick' else 600):
         n = rng.randint(1, 5)
         names = pool_names[:n]
